@@ -12,7 +12,7 @@ import (
 // C05 — persist then load is the identity on the map.
 
 var c05Weights = core.OpWeights{
-	core.OpInsert: 20, core.OpInsertNew: 25, core.OpUpdate: 8, core.OpDelete: 22, core.OpGet: 3,
+	core.OpInsert: 20, core.OpInsertNew: 25, core.OpUpdate: 8, core.OpDelete: 20, core.OpDeleteTop: 4, core.OpGet: 3,
 	core.OpClone: 2, core.OpPersistFail: 3, core.OpPersist: 12, core.OpReload: 10, core.OpReloadJSON: 6, core.OpDrain: 1, core.OpIter: 2,
 }
 
